@@ -29,6 +29,9 @@ MAXN = 5
 RCOLS = 'ABCDE'
 
 
+EXPR_FORMS = {}
+
+
 def build():
     """Scaffold + per-length form table.  A form = (name, formula args text, [cell indices covered, with multiplicity], scalars)."""
     forms = {}
@@ -55,6 +58,12 @@ def build():
         forms[n] = fs
     cells = {}
     meta = {n: [] for n in forms}
+    # arguments that are expressions over the first cell (counted by their value, not as references)
+    EXPR = [('expr-compare', 'C!A1=3', lambda v: [bool(v == 3) if isinstance(v, (int, float)) and not isinstance(v, bool) else False]),
+            ('expr-plus', 'C!A1+1', lambda v: [v + 1] if not isinstance(v, bool) and isinstance(v, (int, float)) else None),
+            ('expr-bracket', '(C!A1)', None), ('expr-neg', '-C!A1', lambda v: [-v] if not isinstance(v, bool) and isinstance(v, (int, float)) else None)]
+    global EXPR_FORMS
+    EXPR_FORMS = {name: fn for name, _, fn in EXPR}
     r = 1
     for n, fs in forms.items():
         for name, args, idx, scalars in fs:
@@ -65,6 +74,15 @@ def build():
             if ',' not in args:
                 cells[f'F{r}'] = f'=COUNTBLANK({args})'
                 meta[n].append((f'F{r}', 'COUNTBLANK', name, idx, scalars))
+            r += 1
+    for n in forms:
+        for name, arg, fn in EXPR:
+            if fn is None:
+                continue
+            for j, f in enumerate(('COUNT', 'SUM', 'MAX')):
+                addr = f'{"HIJ"[j]}{r}'
+                cells[addr] = f'={f}({arg},C!A2:A{max(n, 2)})'
+                meta[n].append((addr, f, name, list(range(1, n)), []))
             r += 1
     sheets = [('S', cells), ('R', {'F2': 999}), ('C', {'B5': 999}), ('Q', {'C3': 999}), ('O t', {'B5': 999}), ('U', {'D1': 999})]
     return sheets, meta
@@ -125,6 +143,14 @@ def judge(vec, entries, outs, src, stats, i, vio):
         vals = [vec[j] if j < len(vec) else None for j in idx]
         if form == 'quoted-sheet':
             vals[0] = OTHER_FIRST
+        if form in EXPR_FORMS:
+            # the first argument is an expression over cell 0: it counts by its value (numbers; a comparison result is a
+            # boolean, which COUNT counts and SUM / MAX - statement silent - are not judged on)
+            ev = EXPR_FORMS[form](vec[0])
+            if ev is None or (isinstance(ev[0], bool) and fn != 'COUNT'):
+                stats['x:not_judged'] += 1
+                continue
+            scalars = list(scalars) + ([0] if fn == 'COUNT' else ev)   # a counted value / the number itself
         want = expected(fn, vals, scalars)
         stats['validated'] += 1
         stats['out:' + S.out_label(o)] += 1
